@@ -1,6 +1,5 @@
 package main
 
-func c09() {}
 func c10() {}
 func c41() {}
 func c42() {}
